@@ -405,3 +405,60 @@ def find_model(assumptions, timeout_ms=5000):
     """A validated model of the conjunction, or None."""
     r = solve(assumptions, ir.FALSE, timeout_ms)
     return r.model if r.status == "refuted" else None
+
+
+class FeasSolver:
+    """Incremental feasibility oracle for one exploration: every path-condition conjunct t gets an
+    indicator p_t with `p_t => t` asserted once; a query is check(p_t1, ..., p_tn).  Range facts of
+    variables and UF applications are asserted unconditionally (they hold in every state)."""
+
+    def __init__(self, timeout_ms=3000):
+        self.lw = IntLower()
+        self.s = z3.Solver()
+        self.s.set("timeout", int(timeout_ms))
+        self.ind = {}
+        self.n_side = 0
+        self.timeout_ms = timeout_ms
+
+    def _indicator(self, t):
+        p = self.ind.get(t.id)
+        if p is None:
+            if has_bitop_cached(t):
+                return None
+            e = self.lw.lower(t)
+            p = z3.Bool("p!%d" % t.id)
+            self.s.add(z3.Implies(p, e))
+            while self.n_side < len(self.lw.side):
+                self.s.add(self.lw.side[self.n_side])
+                self.n_side += 1
+            self.ind[t.id] = p
+        return p
+
+    def feasible(self, terms):
+        lits = []
+        for t in terms:
+            if t.op == "bconst":
+                if not ir.cval(t):
+                    return False
+                continue
+            p = self._indicator(t)
+            if p is None:
+                return feasible(terms, self.timeout_ms)
+            lits.append(p)
+        r = self.s.check(*lits)
+        if r == z3.sat:
+            return True
+        if r == z3.unsat:
+            return False
+        return None
+
+
+_bitop_memo = {}
+
+
+def has_bitop_cached(t):
+    r = _bitop_memo.get(t.id)
+    if r is None:
+        r = ir.has_bitop([t])
+        _bitop_memo[t.id] = r
+    return r
